@@ -49,6 +49,7 @@ static void c05_run(vf_case *c)
             if (xo.IterRefine != NOREFINE) {
                 vf_mat F; xdrv_factored_matrix(&D, &F); ld cond = dense_cond1(&F, NULL, NULL, NULL, NULL); mat_free(&F);
                 ld sigma = xdrv_skeel_sigma(&D, xo.Trans);
+                ld eta = xdrv_solver_cond(&D); if (eta > cond) cond = eta;      /* the solver's own conditioning: with unstable pivoting (tiny u) one refinement step may worsen X */
                 if (!(n * P->eps * cond * sigma < 1e-2L)) judge = 0;
             }
             if (info == n + 1 && xo.IterRefine != NOREFINE) judge = 0;
